@@ -123,21 +123,25 @@ def execQuery (c : Content) (results : List QResult) : Query → Except Unit (Co
   | .insertAliased a =>
     if a = [] then .error () else
     match c.aliasId a with
-    | some i => .ok (c, ⟨0, [i]⟩)
+    | some i => .ok (c, ⟨1, [i]⟩)      -- existing alias: the node is reused, still reported
     | none =>
       .ok ({ nodes := c.nodes ++ [c.next], aliases := c.aliases ++ [(a, c.next)], next := c.next + 1 },
             ⟨1, [c.next]⟩)
   | .remove r =>
-    match resolveRef c results r with
+    -- `DbImpl::remove`: an unknown alias / id is skipped (`Ok(false)`), only `":N"` injection can fail
+    let ids? : Except Unit (List Nat) := match r with
+      | .alias a => .ok (c.aliasId a).toList
+      | .result n => resolveRef c results (.result n)
+    match ids? with
     | .error e => .error e
     | .ok ids =>
       let hit := (ids.eraseDups).filter (c.nodes.contains ·)
       .ok ({ c with nodes := c.nodes.filter (!hit.contains ·),
                     aliases := c.aliases.filter (fun p => !hit.contains p.2) },
-            ⟨-(hit.length : Int), []⟩)
+            ⟨(hit.length : Int), []⟩)
   | .removeAliases a =>
     match c.aliasId a with
-    | some _ => .ok ({ c with aliases := c.aliases.filter (·.1 ≠ a) }, ⟨-1, []⟩)
+    | some _ => .ok ({ c with aliases := c.aliases.filter (·.1 ≠ a) }, ⟨1, []⟩)
     | none => .ok (c, ⟨0, []⟩)
   | .selectIds r =>
     match resolveRef c results r with
